@@ -9,11 +9,35 @@ ASSUMPTIONS = [
 ]
 
 
+def _extras(tier):
+    """queries whose schema depends on an option that has to survive lowering, or on inputs that agree only up to order"""
+    import dask_expr as dx
+    from ..prun import Program, Src
+
+    L = Src("L", 4, {"a": "i", "b": "f", "c": "i"}, 2)
+    L3 = Src("L", 5, {"a": "i", "b": "f", "c": "i"}, 3)
+    R = Src("R", 3, {"a": "i", "e": "i"}, 2)
+    R1 = Src("R", 3, {"a": "i", "e": "i"}, 1)
+    M = Src("M", 3, {"c": "i", "b": "f", "a": "i"}, 2)  # L's columns in another order
+    out = []
+    for how in ("inner", "left", "right", "outer"):
+        for kw in ("", ", broadcast=True", ", broadcast=False", ", shuffle_method='tasks'"):
+            for srcs in ([L, R], [L3, R], [L, R1]):
+                out.append(Program(f"L.merge(R, on='a', how={how!r}, indicator=True{kw})", srcs, family="F07", note="merge-indicator", env_globals={"dx": dx}))
+        out.append(Program(f"L.merge(R, on='a', how={how!r}, suffixes=('_l', '_r'), broadcast=True)", [L3, R], family="F07", note="merge-suffixes", env_globals={"dx": dx}))
+    for text in ("dx.concat([L, M])", "dx.concat([M, L])", "dx.concat([L, M, L])", "dx.concat([L[['a', 'b']], M[['b', 'a']]])", "dx.concat([L, M], join='inner')",
+                 "dx.concat([L.a, M.a])", "dx.concat([L.a, M.c])", "dx.concat([L, M])[['a', 'c']]", "dx.concat([L, M], interleave_partitions=True)",
+                 "dx.concat([L, M.rename(columns={'c': 'z'})])"):
+        out.append(Program(text, [L, M], family="F07", note="concat-order", env_globals={"dx": dx}))
+    return out
+
+
 def run(tier, only=None):
     from families import f01
 
     progs = f01.all_programs(tier)
     progs = f01.select(progs, "quick", seed() + 2, 150 if tier == "quick" else 3000)
+    progs += _extras(tier)
     results, info = pfam.run(progs, prun.check_schema, only)
     info["states"] = max(1, len([r for r in results if r.status == "held"]))
     info["transitions"] = max(1, sum(r.queries for r in results))
